@@ -413,6 +413,13 @@ const (
 	// everything up to the closing parenthesis is one quoted string, the block
 	// parser ends the `(` statement at the flow token and runs what follows.
 	KnownParenCommandSplit = "C34-paren-command-split-at-flow-token"
+	// `a ~> b`: the block parser ends the statement at `~>` and runs the merge
+	// method `~>` (not safe-listed); for the tokenizer `~>` is parameter text.
+	KnownMergeOperator = "C34-merge-operator-not-seen"
+	// `0\<LF>\a`: a backslash in front of a line feed ends the command name for
+	// the block parser (the command `0` runs), the tokenizer keeps reading the
+	// name.
+	KnownEscapedLineFeed = "C34-escaped-line-feed-in-command-name"
 )
 
 // SplitElvis writes `?:` as `? :`, which is how the block parser reads it.
@@ -422,7 +429,26 @@ var rxCastPrefix = regexp.MustCompile(`(^|[|;{\n]|&&|->|=>)([ \t]*):[ \t]*[^\s|;
 
 // DropCastPrefix removes a `:type ` cast written in front of a command, which
 // is where the block parser accepts one.
-func DropCastPrefix(line string) string { return rxCastPrefix.ReplaceAllString(line, "$1$2") }
+func DropCastPrefix(line string) string {
+	// casts can be stacked (`:a :b cmd`): repeat until nothing changes
+	for i := 0; i < 8; i++ {
+		n := rxCastPrefix.ReplaceAllString(line, "$1$2")
+		if n == line {
+			break
+		}
+		line = n
+	}
+	return line
+}
+
+// MergeAsPipedCommand writes the merge operator `~>` the way the block parser
+// reads it: a pipe into the method `~>` (which is not on the safe list).
+func MergeAsPipedCommand(line string) string { return strings.ReplaceAll(line, "~>", " -> ~> ") }
+
+// EscapedLineFeedAsLineFeed drops the backslash in front of a line feed: the
+// block parser ends the command name there, the tokenizer keeps the escaped
+// line feed inside the name.
+func EscapedLineFeedAsLineFeed(line string) string { return strings.ReplaceAll(line, "\\\n", "\n") }
 
 // DropParens removes every `(` and `)` that is not escaped. A `#` between
 // them (a comment for the block parser once it has split the statement) is
@@ -492,6 +518,8 @@ var repairs = []struct {
 	{KnownElvisAtBlockLevel, SplitElvis},
 	{KnownCastPrefix, DropCastPrefix},
 	{KnownParenCommandSplit, DropParens},
+	{KnownMergeOperator, MergeAsPipedCommand},
+	{KnownEscapedLineFeed, EscapedLineFeedAsLineFeed},
 }
 
 // Known maps a failure to a known-finding id ("" = not a listed finding).
